@@ -333,9 +333,8 @@ class PiecewiseConstantBirthDeath(Distribution):
         y = times[..., -1:] - tip_heights
 
         if serially_sampled:
-            indices_y = torch.clamp(
-                torch.searchsorted(times, y, right=True) - 1, max=m - 1
-            )
+            # a tip sampled exactly at t_i belongs to the epoch that ends at t_i
+            indices_y = torch.clamp(torch.searchsorted(times, y) - 1, min=0)
             # true if the node of the given index occurs at the time of a
             # rho-sampling event
             is_rho_tip = (
